@@ -651,6 +651,46 @@ def keyed_instance_of(pools: Pools, entry: ClassEntry, rng, depth=1):
     return entry.build(*args, attrs=pools.attrs_for(entry, rng))
 
 
+IDENT_LABEL = "PoolSum(index * instance + H(x, y)), symbolic pool (pa, pb, 1)"
+
+
+def _pa_pb():
+    import sympy as sp
+
+    return sp.Symbol("pa"), sp.Symbol("pb", real=True)
+
+
+def identification_requests(r, rng) -> list[dict]:
+    """Substitutions that make two ARGUMENTS of one instance, or two ENTRIES of one PoolSum pool, equal (the laws of
+    C14 must hold with multiplicity: nothing may be merged when sub-terms become equal)."""
+    import sympy as sp
+
+    from ampform.sympy import PoolSum
+
+    reqs = []
+    seen = set()
+    for t in sp.preorder_traversal(r):
+        if isinstance(t, PoolSum):
+            bound = {s_ for s_, _ in t.indices}
+            for _, vals in t.indices:
+                syms = [v for v in dict.fromkeys(vals) if isinstance(v, sp.Symbol) and v not in bound]
+                nums = [v for v in vals if v.is_Number]
+                if len(syms) >= 2 and ("pool", syms[0], syms[1]) not in seen:
+                    seen.add(("pool", syms[0], syms[1]))
+                    a, b = syms[:2]
+                    c = rng.choice([sp.Integer(2), sp.Rational(3, 2)])
+                    reqs.append({"kind": "identify two pool entries (both -> same number)", "pairs": [(a, c), (b, c)], "modelled_subs": True})
+                    reqs.append({"kind": "identify two pool entries (one -> other)", "pairs": [(a, b)], "modelled_subs": True})
+                    if nums:
+                        reqs.append({"kind": "identify a pool entry with a literal entry", "pairs": [(a, nums[0])], "modelled_subs": True})
+        elif m1.is_unevaluated_class(type(t)) and "args" not in seen:
+            syms = [a for a in dict.fromkeys(t.args) if isinstance(a, sp.Symbol)]
+            if len(syms) >= 2:
+                seen.add("args")
+                reqs.append({"kind": "identify two arguments of an instance", "pairs": [(syms[0], syms[1])], "modelled_subs": True})
+    return reqs
+
+
 def wrapped(pools: Pools, entry: ClassEntry, r, rng) -> list:
     """The instance inside every array/sum helper class of the package (symbolic containers: whatever the helper
     means numerically, `subs`/`xreplace`/`doit` must pass through it). Returns (label, object) pairs."""
@@ -662,6 +702,7 @@ def wrapped(pools: Pools, entry: ClassEntry, r, rng) -> list:
 
     rs = reserved()
     i = sp.Symbol("i")
+    PA, PB = _pa_pb()  # noqa: N806
     x, y = pools.scalars[0], pools.scalars[2]
     p = rng.choice(pools.momenta)
     scalar = pools.is_scalar_class(entry)
@@ -670,6 +711,13 @@ def wrapped(pools: Pools, entry: ClassEntry, r, rng) -> list:
         ("PoolSum(index * instance + H(x, y))", lambda: PoolSum(i * r + rs["H"](x, y), (i, (1, sp.Rational(1, 2), 3)))),
         ("PoolSum with a symbolic pool holding the keys", lambda: PoolSum(i * r, (i, (rs["H"](x, y), rs["c"] ** 2, 1)))),
         ("nested PoolSum", lambda: PoolSum(PoolSum(r * sp.Symbol("j"), (sp.Symbol("j"), (i, 2))), (i, (1, 2)))),
+        # pools whose ENTRIES can be identified by a substitution ({pa: 2, pb: 2}, {pa: pb}, {pa: 1}): the sum must keep
+        # both terms (subs/xreplace rebuild the PoolSum through __new__); also literal duplicates
+        (IDENT_LABEL, lambda: PoolSum(i * r + rs["H"](x, y), (i, (PA, PB, 1)))),
+        ("PoolSum over an argument of the instance, symbolic pool (pa, pb) and literal duplicates (pb, pb)",
+         # (the index replaces the reserved symbol `c`, which occurs outside the applied-function / indexed KEYS only: a
+         # key that mentions a bound index would be captured — excluded)
+         lambda: PoolSum(r.xreplace({rs["c"]: i}) if rs["c"] in r.free_symbols else r * i, (i, (PA, PB)), (sp.Symbol("j"), (PB, PB)))),
         ("ArraySum(instance, p)", lambda: ArraySum(r, p)),
         ("ArrayAxisSum(instance)", lambda: ArrayAxisSum(r, axis=1)),
         ("ArrayMultiplication(BoostZMatrix, instance)", lambda: ArrayMultiplication(pools.entry("BoostZMatrix").build(x, y), r)),
@@ -700,7 +748,7 @@ def term_key_requests(r, rng, pools: Pools, oracle: bool = False) -> list[dict]:
 
     rs = reserved()
     subs_ = [t for t in sp.preorder_traversal(r)][1:]
-    reqs = []
+    reqs = identification_requests(r, rng)
     arrs = sorted({t for t in subs_ if isinstance(t, ArraySymbol)}, key=str)
     if arrs:
         p = rng.choice(arrs)
@@ -858,7 +906,11 @@ def correspondence(chk: common.Check, rng, n_per_class: int, entries, helpers, c
             continue
         keyed.append((entry.key, "instance", r))
         ws = wrapped(pools, entry, r, rng)
-        for label, w in (ws if n_per_class > 2 else rng.sample(ws, min(2, len(ws)))):
+        must = [w for w in ws if "symbolic pool (pa, pb" in w[0]]
+        rest_ = [w for w in ws if w not in must]
+        if must and n_per_class <= 2:
+            must = [must[k_ % len(must)]]  # quick tier: the two identification wrappers alternate over the classes
+        for label, w in [*must, *(rest_ if n_per_class > 2 else rng.sample(rest_, min(2, len(rest_))))]:
             keyed.append((entry.key, label, w))
     stats["term_key_subjects"] = len(keyed)
     stats["term_key_kinds"] = {}
@@ -995,7 +1047,7 @@ def correspondence(chk: common.Check, rng, n_per_class: int, entries, helpers, c
             model = m1.read_reply(line)
             if m1.same(real, model, ctx):
                 continue
-            rebuilt = m1.to_sympy(model, ctx.fresh())
+            rebuilt = m1.to_sympy_raw(model, ctx.fresh())  # pool sums NOT passed through PoolSum.__new__
         except Exception as e:  # noqa: BLE001
             if "not supported between instances of 'function'" in str(e):
                 # SymPy cannot order two instances that differ only in a function-valued attribute (notes/findings_C14.md)
